@@ -277,6 +277,10 @@ KNOWN_BAD = {
           "#[derive(Debug, Clone, PartialEq, Difference)]\npub struct D<'a> { #[difference(collection_strategy = \"ordered_array_like\")] pub v: Vec<std::borrow::Cow<'a, str>> }\n"),
  'D13': ("a field named `<f>_full` next to an Option `recurse` field `<f>` (the extra variant `<f>_full` of the diff enum collides)",
          "#[derive(Debug, Clone, PartialEq, Difference)]\npub struct Inner { pub x: i64 }\n#[derive(Debug, Clone, PartialEq, Difference)]\npub struct D { #[difference(recurse)] pub a: Option<Inner>, pub a_full: i64 }\n"),
+ 'D19': ("a bound of a used parameter mentions a parameter that no unskipped field uses (the diff enums copy the bound but do not declare that parameter)",
+         "#[derive(Debug, Clone, PartialEq, Difference)]\npub struct D<T: Clone + PartialEq + std::fmt::Debug, U: Into<T> + Clone + PartialEq + std::fmt::Debug> { pub x: U, #[difference(skip)] pub y: std::marker::PhantomData<T> }\n"),
+ 'D19b': ("a lifetime bound of a used lifetime mentions a lifetime that no unskipped field uses",
+          "#[derive(Debug, Clone, PartialEq, Difference)]\npub struct D<'a, 'b: 'a> { pub x: Option<&'b u8>, #[difference(skip)] pub y: std::marker::PhantomData<&'a u8> }\n"),
  'D7': ("trailing comma inside a difference attribute", "#[derive(Debug, Clone, PartialEq, Difference)]\npub struct D { #[difference(skip,)] pub f0: i64, pub f1: i64 }\n"),
  'D8': ("generic parameter used only behind a reference inside another type", "#[derive(Debug, Clone, PartialEq, Difference)]\npub struct D<'a, T> { pub o: Option<&'a T> }\n"),
  'D9': ("bare reference field", "#[derive(Debug, Clone, PartialEq, Difference)]\npub struct D<'a> { pub o: &'a u8 }\n"),
